@@ -27,7 +27,7 @@ func init() {
 	register(&Driver{
 		ID:        "C20",
 		Technique: "stateless model checking under a controlled scheduler: (A) every goroutine interleaving (<=2 concurrently scanned components; preemption-bounded for 3) of the real parallel scanning phase and of the real parallel Close, with the race detector as per-schedule oracle (scheduler hand-offs are invisible to tsan); (B) all interleavings of all small concurrent programs over the map / set utilities with a linearizability check of every recorded history",
-		Rule:      "(A) components {1,2,3} x scanners {failing user scanner, + built-in tag scanner} x every subset of components on which the user scanner fails x every permutation of the spawn order; Close with 2-3 closers x failing subsets; whole starts serialised under several spawn orders and free-running; (B) programs of 2 threads x (1,1) and (2,1) operations and 3 threads x 1 operation (thorough: 2 x (2,2)) over sync2.Map {Load, Store, LoadOrStore, LoadOrStoreFn, Delete, Range} and ConcurrentSets / generic concurrent set {Put, Exists, Remove, Length, ToArray}, keys {k1,k2}, from the empty structure and from pre-populated ones ({k1}, {k1,k2}), a distinct value per operation; non-trivial = program whose operations touch a common key",
+		Rule:      "(A) components {1,2,3} x scanners {failing user scanner, + built-in tag scanner} x every subset of components on which the user scanner fails x every permutation of the spawn order; Close with 2-3 closers x failing subsets; whole starts serialised under several spawn orders and free-running; (B) programs of 2 threads x (1,1) and (2,1) operations and 3 threads x 1 operation (thorough: 2 x (2,2)) over sync2.Map {Load, Store, LoadOrStore, LoadOrStoreFn, Delete, Range} and ConcurrentSets / generic concurrent set {Put, Exists, Remove, Length, ToArray}, keys {k1,k2}, from the empty structure and from pre-populated ones ({k1}, {k1,k2}), a distinct value per operation; non-trivial = program whose operations touch a common key. Families added in later rounds (look-ups inside Init, retries after an abandoned attempt, user extension points at every Order, several containers, odd names / types / values) are listed per part in this file and described in MANIFEST.json (level_claimed.text) and DESIGN §7",
 		Assumptions: []string{
 			"Go's sync.Map is linearizable per operation (each shim-level map operation is one atomic step; Range visits a snapshot)",
 			"data races are judged by tsan's happens-before model on the explored schedule; weak-memory effects below it are not covered",
